@@ -1124,3 +1124,33 @@ Proof.
   destruct (needs_ip TUdp socks && negb (is_ip (ep_host (eff_ep e dial)))); [discriminate|].
   injection H as <-. reflexivity.
 Qed.
+
+(** ** A sequence of NewUpstream calls: every result is that of the single call *)
+
+Lemma new_upstreams_independent is_ip before c after :
+  nth_error (new_upstreams is_ip (before ++ c :: after)) (length before)
+  = Some (new_upstream is_ip (fst (fst c)) (snd (fst c)) (snd c)).
+Proof.
+  unfold new_upstreams. rewrite map_app. cbn [map].
+  rewrite nth_error_app2 by (rewrite map_length; lia).
+  rewrite map_length, Nat.sub_diag. reflexivity.
+Qed.
+
+(** on the grammar: whatever was created before, the TLS name of an upstream
+    whose options leave ServerName empty is its own URL host *)
+Lemma seq_tls_name is_ip before after nm tr def e path dial socks :
+  In (nm, tr, def) scheme_table -> has_tls_name tr = true ->
+  wf_ep e = true -> url_ok_ep e = true -> wf_path path = true -> dial_wf dial = true ->
+  needs_ip tr socks && negb (is_ip (ep_host (eff_ep e dial))) = false ->
+  exists t,
+    nth_error (new_upstreams is_ip
+                 (before ++ (lit nm ++ lit "://" ++ render_ep e ++ path, render_dial dial, socks) :: after))
+              (length before) = Some (Some t)
+    /\ effective_tls_name [] t = Some (ep_host e).
+Proof.
+  intros Hin Htls He Hu Hp Hd Hip.
+  rewrite new_upstreams_independent. cbn [fst snd].
+  rewrite (dial_target is_ip nm tr def e path dial socks Hin He Hu Hp Hd).
+  unfold expected_target. rewrite Hip, Htls.
+  eexists. split; [reflexivity|]. reflexivity.
+Qed.
